@@ -238,8 +238,8 @@ tagspec(struct scope *s)
 		if (!t->u.structunion.members)
 			error(&tok.loc, "struct/union has no members");
 		next();
-		if (!b.pack)
-			t->size = ALIGNUP(t->size, t->align);
+		/* a packed struct has alignment 1 unless a member has an alignment specifier */
+		t->size = ALIGNUP(t->size, t->align);
 		break;
 	case TYPEENUM:
 		enumconsts = NULL;
